@@ -7,9 +7,15 @@ META = {
     "technique": "Coq proof (line machine / tree / Parser<T> model refines the abstract assignment-list and number-text spec) "
                  "+ extracted-model vs C++ differential correspondence with spec oracle; ASan/UBSan build on malformed bytes",
     "text": "Theorems in coq/Properties_C12.v about the executable model of readINITree (line machine incl. quote continuation), "
-            "ParameterTree set/get/hasKey/hasSub, readOptions/readNamedOptions and Parser<T> for integers, bool, string, array, vector, "
-            "bitset; the model is tied to dune/common/parametertree*.{hh,cc} on every run by running extracted model and the C++ classes "
-            "on identical documents (exhaustive small alphabet, rendered random hierarchies, malformed bytes), value strings and argv vectors.",
+            "ParameterTree set/get/hasKey/hasSub, readOptions/readNamedOptions and Parser<T>: C12_total (no hang on any bytes), "
+            "C12_roundtrip/_bytes (every document of the dialect incl. groups, dotted keys, comments, quoted and multi-line values = "
+            "store the written key/value list), C12_values (every key of a hierarchy maps to its written value, unrelated entries "
+            "untouched), C12_frame, C12_duplicate, C12_overwrite, C12_default, C12_int_exact, C12_bool/_vector/_bitset_exact, "
+            "C12_range_exact (repaired probe) with C12_range_exact_refuted (code as is: F-C12-1), C12_options_pairs/_dangling/"
+            "_positional_partial, C12_no_undefined_read_refuted (F-C12-2). The model is tied to dune/common/parametertree*.{hh,cc} on "
+            "every run by running extracted model and the C++ classes on identical documents (all documents over a 9-symbol alphabet "
+            "up to length 5/6, rendered random hierarchies checked to lie inside the proved dialect, malformed bytes under ASan/UBSan), "
+            "value strings and argv vectors; a spec oracle (assignment-list semantics, number-text grammar) judges the impl's output.",
     "note": "Trusted: Coq kernel, extraction, OCaml driver, C++ harness, g++/libstdc++; std::num_get integer grammar is modelled "
             "(DESIGN section 3 item 5); floating-point text conversion (strtod) is not modelled.",
     "design_ref": "DESIGN.md section 4 C12",
@@ -80,9 +86,11 @@ def gen_value(rng):
 
 
 def render(rng, assigns):
-    """Render a hierarchy with random layout choices of the dialect.  Returns bytes."""
-    nl = "\r\n" if rng.random() < 0.1 else "\n"
-    lines = []
+    """Render a hierarchy with random layout choices of the dialect.
+    Returns (doc bytes, written values, items) where items is the document as a list of dialect items
+    (the constructors of c12_sline in coq/C12_Spec.v); the document is their plain concatenation."""
+    crlf = rng.random() < 0.1
+    items, values = [], []
     prefix = ()
 
     def blanks():
@@ -90,51 +98,95 @@ def render(rng, assigns):
 
     for p, (kind, v) in assigns:
         if rng.random() < 0.15:
-            lines.append(blanks() + "#" + rng.choice(["", " comment", " a = b", "[x]"]))
+            items.append(("C", blanks(), rng.choice(["", " comment", " a = b", "[x]"])))
         if rng.random() < 0.1:
-            lines.append(blanks())
+            items.append(("B", blanks()))
         # choose how much of the path goes into the group header
         if p[:len(prefix)] == prefix and len(prefix) < len(p) and rng.random() < 0.7:
             pass                                  # keep current group
         else:
             k = rng.randrange(0, len(p))          # new header with the first k segments
             prefix = p[:k]
-            lines.append(blanks() + "[" + blanks() + ".".join(prefix) + blanks() + "]" + blanks()
-                         + rng.choice(["", "", " # group"]))
+            items.append(("H", blanks(), blanks(), ".".join(prefix), blanks(), blanks() + rng.choice(["", "", " # group"])))
         key = ".".join(p[len(prefix):])
-        if key[:1] in ("[", "#"):
-            # would be read as header/comment: spell the whole path after a reset header
-            prefix = ()
-            lines.append("[]")
-            key = ".".join(p)
         v = v.decode("latin-1")
         if kind == "quoted":
             q = rng.choice(["'", '"'])
-            # the quote must not end a line of the value; '#' is cut from the first line before quotes are seen
-            body = v.replace("\n", "") if nl == "\r\n" else v   # a CR would become part of a multi-line value
-            body = re.sub(re.escape(q) + r"(?=[ \t\r]*(\n|$))", "", body)
+            body = v.replace("\n", "") if crlf else v   # a CR would become part of a multi-line value
+            # '#' is cut from the first line before quotes are seen; the quote must not end a line of the value
             first, sep, rest = body.partition("\n")
             first = first.replace("#", "")
             body = first + sep + rest
-            assigns_value = body
-            lines.append(blanks() + key + blanks() + "=" + blanks() + q + body + q + blanks())
-            yield_value = body
+            while True:
+                nb = re.sub(re.escape(q) + r"(?=[ \t\r]*(\n|$))", "", body)
+                if nb == body:
+                    break
+                body = nb
+            ls = body.split("\n")
+            if len(ls) == 1:
+                items.append(("Q", blanks(), key, blanks(), blanks(), q, body, blanks(), rng.choice(["", "", "# c", "#"])))
+            else:
+                items.append(("N", blanks(), key, blanks(), blanks(), q, ls[0], ls[-1], blanks()) + tuple(ls[1:-1]))
+            values.append(body.encode("latin-1"))
         else:
-            body = v.replace("#", "")
-            body = body.strip(" \t")
+            body = v.replace("#", "").strip(" \t")
             if body[:1] in ("'", '"'):
                 body = "v" + body
-            tail = rng.choice(["", "", blanks(), " # trailing comment", "\t#x=y"])
-            lines.append(blanks() + key + blanks() + "=" + blanks() + body + tail)
-            yield_value = body
-        render.values.append(yield_value.encode("latin-1"))
-    doc = nl.join(lines)
+            b3, comment = rng.choice([("", ""), ("", ""), (blanks(), ""), (" ", "# trailing comment"), ("\t", "#x=y")])
+            items.append(("A", blanks(), key, blanks(), blanks(), body, b3, comment))
+            values.append(body.encode("latin-1"))
+    lines = []
+    for it in items:
+        lines += item_lines(it)
+    if crlf:
+        # the CR is a trailing blank / part of the comment of every line: push it into the items
+        items = [item_with_cr(it) for it in items]
+        lines = []
+        for it in items:
+            lines += item_lines(it)
+    doc = "\n".join(lines)
     if rng.random() < 0.7:
-        doc += nl
-    return doc.encode("latin-1")
+        doc += "\n"
+        if not items:
+            items.append(("B", ""))   # the empty first line
+        items.append(("B", ""))
+    return doc.encode("latin-1"), values, items
 
 
-render.values = []
+def item_lines(it):
+    k = it[0]
+    if k == "B":
+        return [it[1]]
+    if k == "C":
+        return [it[1] + "#" + it[2]]
+    if k == "H":
+        return [it[1] + "[" + it[2] + it[3] + it[4] + "]" + it[5]]
+    if k == "A":
+        return [it[1] + it[2] + it[3] + "=" + it[4] + it[5] + it[6] + it[7]]
+    if k == "Q":
+        return [it[1] + it[2] + it[3] + "=" + it[4] + it[5] + it[6] + it[5] + it[7] + it[8]]
+    if k == "N":
+        return [it[1] + it[2] + it[3] + "=" + it[4] + it[5] + it[6]] + list(it[9:]) + [it[7] + it[5] + it[8]]
+    raise ValueError(k)
+
+
+def item_with_cr(it):
+    k = it[0]
+    if k == "B":
+        return ("B", it[1] + "\r")
+    if k == "C":
+        return ("C", it[1], it[2] + "\r")
+    if k == "H":
+        return it[:5] + (it[5] + "\r",)
+    if k == "A":
+        return it[:6] + ((it[6] + "\r", it[7]) if not it[7] else (it[6], it[7] + "\r"))
+    if k == "Q":
+        return it[:7] + ((it[7] + "\r", it[8]) if not it[8] else (it[7], it[8] + "\r"))
+    return it      # "N" does not occur with CRLF
+
+
+def fmt_items(items):
+    return ",".join(it[0] + ":" + "/".join(X(f) for f in it[1:]) for it in items) if items else "-"
 
 
 def fmt_assigns(assigns):
@@ -153,25 +205,26 @@ def gen_rendered(ctx, n):
             if rng.random() < 0.5:
                 doc.insert(rng.randrange(len(doc) + 1), (p, gen_value(rng)))
         ow = rng.randrange(2)
-        render.values = []
-        predoc = render(rng, pre)
-        prevals = render.values
-        render.values = []
-        d = render(rng, doc)
-        docvals = render.values
+        predoc, prevals, _ = render(rng, pre)
+        d, docvals, items = render(rng, doc)
         pa = [(p, v) for (p, _), v in zip(pre, prevals)]
         da = [(p, v) for (p, _), v in zip(doc, docvals)]
         kind = "rendered"
         if doc and rng.random() < 0.12:
             # duplicate: the same key once more in the same source, spelled as a dotted key
             p, _ = rng.choice(doc)
-            d += b"\n[]\n" + ".".join(p).encode("latin-1") + b" = dup\n"
+            if items and items[-1] == ("B", ""):
+                items.pop()             # the document ended with a line break
+            else:
+                d += b"\n"
+            d += b"[]\n" + ".".join(p).encode("latin-1") + b" = dup\n"
+            items += [("H", "", "", "", "", ""), ("A", "", ".".join(p), " ", " ", "dup", "", ""), ("B", "")]
             da.append((p, b"dup"))
             kind = "duplicate"
         qs = [".".join(p) for p, _ in (pre + doc)[:4]]
         qs += [".".join(p[:-1]) for p, _ in doc[:2] if len(p) > 1]
         qs += [q + ".nope" for q in qs[:2]] + ["nope", ""]
-        cases.append("ini %d %s %s %s %s %s" % (ow, X(predoc), X(d), L(qs), fmt_assigns(pa), fmt_assigns(da)))
+        cases.append("ini %d %s %s %s %s %s %s" % (ow, X(predoc), X(d), L(qs), fmt_assigns(pa), fmt_assigns(da), fmt_items(items)))
     return cases
 
 
@@ -264,6 +317,10 @@ def gen_values(ctx):
         s = "".join(rng.choice(" \t\n\rab\x0b\x0c\x00#\"'=") for _ in range(rng.choice([0, 1, 2, 4, 8])))
         cases.append("get string %s" % X(s))
         cases.append("get vecs %s" % X(s))
+    # texts whose reading would change under a locale with decimal comma / digit grouping
+    for s in ["1.000", "12.345", "1,5", "1.000.000", "1,000", "1 2.000 3", "1.0001", ".5", "1."]:
+        for ty in ["int", "long", "uint", "arr1", "arr3", "vec", "bool"]:
+            cases.append("get %s %s" % (ty, X(s)))
     for s in ["", "5", "x", " 12 ", "12 x"]:
         cases.append("get intor0 %s" % X(s))
         cases.append("get intor1 %s" % X(s))
@@ -290,6 +347,25 @@ def gen_argv(ctx):
         if rng.random() < 0.5:
             args = [a for a in args if a not in ("-h", "--help")]
         cases.append("nopt %d %d %d %s %s %s" % (req, rng.randrange(2), rng.randrange(2), L(kw), L(args), X(rng.choice(pres))))
+    # the documented mappings (spec oracle applies): positional only / named only, overwrite allowed
+    names = ["a", "b", "c", "dd", "e.f", "g"]
+    for _ in range(1500 if ctx.quick else 20000):
+        kw = rng.sample(names, rng.randrange(0, 6))
+        req = rng.choice([0, 1, 2, 3, len(kw), 4294967295])
+        if rng.random() < 0.5:
+            args = [rng.choice(["1", "x", "", "-", "a=1", "-3", "v w"]) for _ in range(rng.randrange(0, len(kw) + 2))]
+        else:
+            ks = [rng.choice(kw) for _ in range(rng.randrange(0, len(kw) + 2))] if kw else []
+            args = ["--%s=%s" % (k, rng.choice(["1", "", "x=y", "-"])) for k in ks]
+        cases.append("nopt %d %d 1 %s %s %s" % (req, rng.randrange(2), L(kw), L(args), X(rng.choice(pres[:3]))))
+    pool = ["a", "b", "c", "a.b", "c.d", "x"]
+    for _ in range(1000 if ctx.quick else 10000):
+        args = []
+        for k in [rng.choice(pool) for _ in range(rng.randrange(0, 5))]:
+            args += ["-" + k, rng.choice(["1", "", "-v", "x y", "--z=1"])]
+        if rng.random() < 0.2:
+            args.append("-" + rng.choice(pool))
+        cases.append("opt %s" % L(args))
     return cases
 
 
@@ -401,6 +477,8 @@ def run(ctx):
     vidx = [i for i, tg in enumerate(tags) if tg == "values"]
     lo = run_with_arg(ctx, impl, [cases[i] for i in vidx], "comma-locale")
     nviol = ndis = 0
+    persig = {}
+    dialect = {"items_ok": 0, "items_not_ok": 0, "bytes_are_rendering": 0, "bytes_differ": 0, "theorem_rhs_equals_model": 0, "theorem_rhs_differs": 0}
     kinds, variants, ub_cases = {}, {"asis": 0, "fixed": 0}, 0
     statuses = {}
     for i, (c, m, a) in enumerate(zip(cases, mo, io)):
@@ -409,13 +487,23 @@ def run(ctx):
         mm, spec = split_model(m)
         if " ub=1" in spec:
             ub_cases += 1
+        md = re.search(r" dialect=(\d)(\d)(\d)", spec)
+        if md:
+            dialect["items_ok" if md.group(1) == "1" else "items_not_ok"] += 1
+            dialect["bytes_are_rendering" if md.group(2) == "1" else "bytes_differ"] += 1
+            dialect["theorem_rhs_equals_model" if md.group(3) == "1" else "theorem_rhs_differs"] += 1
+            if md.group(1) == "1" and md.group(2) == "1" and md.group(3) != "1":
+                ctx.violation("coq:theorem:C12_roundtrip:instance", {"broken": "extracted model contradicts theorem C12_roundtrip on an instance", "case": c}, found_input=False)
+            spec = spec[:md.start()]
         st = a.split(" ")[0] if not a.startswith("OK") and not a.startswith("EXC") else a.split(" ")[0]
         statuses[st] = statuses.get(st, 0) + 1
         reason = oracle(c, a, spec)
         if reason is not None:
             nviol += 1
-            if nviol <= 300:
-                ctx.violation(sig_of(c, a, spec), {"case": c, "readable": decode_case(c), "impl": a, "model": mm, "spec": spec, "oracle": reason,
+            sg = sig_of(c, a, spec)
+            persig[sg] = persig.get(sg, 0) + 1
+            if persig[sg] <= 5:
+                ctx.violation(sg, {"case": c, "readable": decode_case(c), "impl": a, "model": mm, "spec": spec, "oracle": reason,
                                                    "stream": tags[i], "replay_cmd": "bin/check C12 --replay <this file>"})
             continue
         mt = model_matches(mm, a)
@@ -448,9 +536,10 @@ def run(ctx):
         "distinct_cases": distinct,
         "samples": [decode_case(c)[:300] for c in (cases[len(corpus):len(corpus) + 2] + cases[len(cases) // 2: len(cases) // 2 + 2] + cases[-2:])],
         "stream_sizes": {n: len(c) for n, c in streams}, "case_kinds": kinds, "impl_status_distribution": statuses,
-        "impl_model_disagreements": ndis, "oracle_rejections": nviol,
+        "impl_model_disagreements": ndis, "oracle_rejections": nviol, "oracle_rejections_by_signature": persig,
         "parseRange_variant_matched_on_discriminating_cases": variants,
         "model_flags_undefined_rbegin_read_cases": ub_cases,
+        "rendered_documents_vs_dialect_of_C12_roundtrip": dialect,
         "sanitizer_cases": len(sub), "comma_locale_cases": len(vidx), "os_locale_with_decimal_comma": "not installed (C, C.utf8, POSIX only); C++ global locale with custom numpunct used instead",
         "exhaustive": False, "traces_validated_against_impl": len(cases),
     })
